@@ -13,19 +13,21 @@ use std::rc::Rc;
 use time::{Date, Duration, Weekday};
 
 #[derive(Clone, Debug)]
-pub struct CrashCase { pub cal: Calendar, pub year: i32, pub today: Date, pub requested: Date, pub prior_today: Option<Date>, pub later_lookups: Vec<Date>, pub stride: usize }
+pub struct CrashCase { pub cal: Calendar, pub year: i32, pub today: Date, pub requested: Date, pub prior_today: Option<Date>, pub later_lookups: Vec<Date>, pub stride: usize,
+    /// the earlier run's cache file was moved elsewhere and is reached through a symbolic link (a cache kept in a synced folder)
+    pub prior_symlink: bool }
 
 impl CrashCase {
-    fn to_json(&self) -> JsonValue { json::object! { calendar: self.cal.to_json(), year: self.year, today: self.today.to_string(), requested: self.requested.to_string(), prior_today: self.prior_today.map(|d| d.to_string()), later_lookups: self.later_lookups.iter().map(|d| d.to_string()).collect::<Vec<_>>(), stride: self.stride } }
+    fn to_json(&self) -> JsonValue { json::object! { calendar: self.cal.to_json(), year: self.year, today: self.today.to_string(), requested: self.requested.to_string(), prior_today: self.prior_today.map(|d| d.to_string()), later_lookups: self.later_lookups.iter().map(|d| d.to_string()).collect::<Vec<_>>(), stride: self.stride, prior_symlink: self.prior_symlink } }
     fn from_json(v: &JsonValue) -> Option<CrashCase> {
         let d = |k: &str| v[k].as_str().and_then(crate::gen::parse_date);
-        Some(CrashCase { cal: Calendar::from_json(&v["calendar"])?, year: v["year"].as_i32()?, today: d("today")?, requested: d("requested")?, prior_today: d("prior_today"), later_lookups: v["later_lookups"].members().filter_map(|x| x.as_str().and_then(crate::gen::parse_date)).collect(), stride: v["stride"].as_usize().unwrap_or(1) })
+        Some(CrashCase { cal: Calendar::from_json(&v["calendar"])?, year: v["year"].as_i32()?, today: d("today")?, requested: d("requested")?, prior_today: d("prior_today"), later_lookups: v["later_lookups"].members().filter_map(|x| x.as_str().and_then(crate::gen::parse_date)).collect(), stride: v["stride"].as_usize().unwrap_or(1), prior_symlink: v["prior_symlink"].as_bool().unwrap_or(false) })
     }
 }
 
 fn strategy(tier: Tier) -> BoxedStrategy<CrashCase> {
     let stride = tier.pick(1usize, 1usize);
-    (2012i32..=2022, proptest::collection::vec(any::<u32>(), 64), 50u16..=366, 0u8..3, proptest::collection::vec(any::<u16>(), 5), any::<u16>()).prop_map(move |(year, seeds, nrows, prior, looks, req)| {
+    (2012i32..=2022, proptest::collection::vec(any::<u32>(), 64), 50u16..=366, 0u8..4, proptest::collection::vec(any::<u16>(), 5), any::<u16>()).prop_map(move |(year, seeds, nrows, prior, looks, req)| {
         let mut cal = Calendar::default();
         let mut d = ymd(year, 1, 1);
         let mut k = 0usize;
@@ -45,7 +47,7 @@ fn strategy(tier: Tier) -> BoxedStrategy<CrashCase> {
         let requested = today - Duration::days(1 + (req % 9) as i64);
         let prior_today = match prior { 0 => None, 1 => Some(today - Duration::days(40)), _ => Some(today - Duration::days(12)) };
         let later_lookups = looks.iter().map(|x| ymd(year, 1, 1) + Duration::days((*x as i64) % (nrows as i64 + 5))).collect();
-        CrashCase { cal, year, today, requested, prior_today, later_lookups, stride }
+        CrashCase { cal, year, today, requested, prior_today, later_lookups, stride, prior_symlink: prior == 3 }
     }).boxed()
 }
 
@@ -62,6 +64,11 @@ fn prepare(dir: &std::path::Path, c: &CrashCase, cal: &Rc<Calendar>) {
         let calls = Rc::new(RefCell::new(BTreeMap::new()));
         let mut l = loader(dir, cal, pt, &calls);
         let _ = l.blocking_get_effective_usd_cad_rate(pt - Duration::days(3));
+        if c.prior_symlink {
+            let live = dir.join(format!("rates-{}.csv", c.year));
+            let store = dir.join(format!("synced-rates-{}.csv", c.year));
+            if live.exists() && std::fs::rename(&live, &store).is_ok() { let _ = std::os::unix::fs::symlink(store.file_name().unwrap(), &live); }
+        }
     }
 }
 
@@ -89,12 +96,13 @@ fn check(c: &CrashCase, obs: &mut O) -> Verdict {
     let mut outcomes: BTreeMap<&'static str, u64> = BTreeMap::new();
     prepare(&template, c, &cal);
     // the directory exactly as the earlier run left it: contents, left-over files, and which names share one inode (hard links)
-    let template_files: Vec<(std::ffi::OsString, Vec<u8>, u64)> = std::fs::read_dir(&template).map(|d| d.filter_map(|e| e.ok()).filter_map(|e| { use std::os::unix::fs::MetadataExt; let ino = e.metadata().map(|m| m.ino()).unwrap_or(0); std::fs::read(e.path()).ok().map(|b| (e.file_name(), b, ino)) }).collect()).unwrap_or_default();
+    let template_links: Vec<(std::ffi::OsString, std::path::PathBuf)> = std::fs::read_dir(&template).map(|d| d.filter_map(|e| e.ok()).filter(|e| e.file_type().map(|t| t.is_symlink()).unwrap_or(false)).filter_map(|e| std::fs::read_link(e.path()).ok().map(|t| (e.file_name(), t))).collect()).unwrap_or_default();
+    let template_files: Vec<(std::ffi::OsString, Vec<u8>, u64)> = std::fs::read_dir(&template).map(|d| d.filter_map(|e| e.ok()).filter(|e| !e.file_type().map(|t| t.is_symlink()).unwrap_or(false)).filter_map(|e| { use std::os::unix::fs::MetadataExt; let ino = e.metadata().map(|m| m.ino()).unwrap_or(0); std::fs::read(e.path()).ok().map(|b| (e.file_name(), b, ino)) }).collect()).unwrap_or_default();
     let _ = std::fs::remove_dir_all(&template);
     for p in &points {
         let _ = std::fs::remove_dir_all(&dir);
         let _ = std::fs::create_dir_all(&dir);
-        { let mut first_of: BTreeMap<u64, std::path::PathBuf> = BTreeMap::new(); for (n, b, ino) in &template_files { match first_of.get(ino) { Some(orig) if *ino != 0 => { let _ = std::fs::hard_link(orig, dir.join(n)); } _ => { let _ = std::fs::write(dir.join(n), b); first_of.insert(*ino, dir.join(n)); } } } }
+        { let mut first_of: BTreeMap<u64, std::path::PathBuf> = BTreeMap::new(); for (n, b, ino) in &template_files { match first_of.get(ino) { Some(orig) if *ino != 0 => { let _ = std::fs::hard_link(orig, dir.join(n)); } _ => { let _ = std::fs::write(dir.join(n), b); first_of.insert(*ino, dir.join(n)); } } } for (n, t) in &template_links { let _ = std::os::unix::fs::symlink(t, dir.join(n)); } }
         acb::util::date::set_todays_date_for_test(c.today);
         set_crash_point(Some(p.clone()));
         let calls = Rc::new(RefCell::new(BTreeMap::new()));
@@ -148,7 +156,7 @@ fn check(c: &CrashCase, obs: &mut O) -> Verdict {
         let p = CrashPoint::AfterBytes(b);
         let _ = std::fs::remove_dir_all(&dir);
         let _ = std::fs::create_dir_all(&dir);
-        { let mut first_of: BTreeMap<u64, std::path::PathBuf> = BTreeMap::new(); for (n, bts, ino) in &template_files { match first_of.get(ino) { Some(orig) if *ino != 0 => { let _ = std::fs::hard_link(orig, dir.join(n)); } _ => { let _ = std::fs::write(dir.join(n), bts); first_of.insert(*ino, dir.join(n)); } } } }
+        { let mut first_of: BTreeMap<u64, std::path::PathBuf> = BTreeMap::new(); for (n, bts, ino) in &template_files { match first_of.get(ino) { Some(orig) if *ino != 0 => { let _ = std::fs::hard_link(orig, dir.join(n)); } _ => { let _ = std::fs::write(dir.join(n), bts); first_of.insert(*ino, dir.join(n)); } } } for (n, t) in &template_links { let _ = std::os::unix::fs::symlink(t, dir.join(n)); } }
         acb::util::date::set_todays_date_for_test(c.today);
         set_crash_point(Some(p.clone()));
         let calls = Rc::new(RefCell::new(BTreeMap::new()));
@@ -186,12 +194,12 @@ fn check(c: &CrashCase, obs: &mut O) -> Verdict {
     let _ = std::fs::remove_dir_all(&dir);
     for (k, v) in outcomes { obs.class(format!("{k}(x{})", if v > 1000 { ">1000" } else if v > 100 { ">100" } else { "<=100" })); }
     obs.class(format!("steps:{}", steps.join("+")));
-    obs.class(match c.prior_today { None => "prior:none", Some(_) => "prior:older-complete-file" });
+    obs.class(match (c.prior_today, c.prior_symlink) { (None, _) => "prior:none", (Some(_), false) => "prior:older-complete-file", (Some(_), true) => "prior:older-complete-file-behind-a-symlink" });
     Verdict::Pass
 }
 
 pub fn def() -> PropDef {
-    let mut d = PropDef::new("C14", "fault enumeration: for each generated year content (50-366 rows; rates with 1-10 decimals, below and above 1, zero placeholders for unpublished days) and prior cache state (none / the directory exactly as an earlier complete run of the product left it, hard links and left-over files included), a run that downloads the year is interrupted at EVERY byte offset of the cache file write (0..len, via the verif_hooks CrashWriter) and at every named step boundary of the write procedure; after each crash a fresh loader (today + 3 days, remote = published calendar) looks up the last three dates present in the file, the first missing date, the interrupted run's date and 5 random dates. In addition, for the last 60 byte offsets of each content: crash, then a COMPLETE run whose download is a few bytes shorter (the bank no longer reports four early observations, nothing else changes), then the look-ups. Violation = a look-up returns a rate that differs from the published rate of the date it carries. Non-trivial = crash point strictly inside a row (file does not end in a newline). Distinct = distinct (content, crash point).");
+    let mut d = PropDef::new("C14", "fault enumeration: for each generated year content (50-366 rows; rates with 1-10 decimals, below and above 1, zero placeholders for unpublished days) and prior cache state (none / the directory exactly as an earlier complete run of the product left it, hard links and left-over files included, or with the year's file reached through a symbolic link), a run that downloads the year is interrupted at EVERY byte offset of the cache file write (0..len, via the verif_hooks CrashWriter) and at every named step boundary of the write procedure; after each crash a fresh loader (today + 3 days, remote = published calendar) looks up the last three dates present in the file, the first missing date, the interrupted run's date and 5 random dates. In addition, for the last 60 byte offsets of each content: crash, then a COMPLETE run whose download is a few bytes shorter (the bank no longer reports four early observations, nothing else changes), then the look-ups. Violation = a look-up returns a rate that differs from the published rate of the date it carries. Non-trivial = crash point strictly inside a row (file does not end in a newline). Distinct = distinct (content, crash point).");
     d.level = "fault_enumeration";
     d.exhaustive = true;
     d.assumptions = vec!["crash model: operations persist in program order (what the hook sees); a filesystem that reorders un-synced writes behind a rename is outside this model", "byte offsets are exhaustive per generated content; contents are sampled"];
